@@ -54,7 +54,7 @@ Qed.
 
 Lemma Z_lll_laws : lll_laws Z_lll.
 Proof.
-  constructor; cbn.
+  constructor; cbn [Z_lll lops linv lis_unit lnunit ldiv_round lsize_ok lnormz Z_ring rmul rone rzero].
   - exact Z_ring_laws.
   - intros u v. unfold z_inv, z_is_unit.
     destruct (Z.eqb_spec u 1); destruct (Z.eqb_spec (- u) 1); cbn; intros H; try discriminate;
@@ -64,9 +64,11 @@ Proof.
   - intros a. unfold z_nunit. destruct (Z.ltb_spec a 0); cbn [negb].
     + destruct (Z.ltb_spec (a * -1) 0); [lia|reflexivity].
     + destruct (Z.ltb_spec (a * 1) 0); [lia|reflexivity].
-  - intros a b q H. apply z_div_round_some in H. apply Z.leb_le. unfold rsub. cbn. replace (a + - (q * b)) with (a - q * b) by lia. tauto.
+  - intros a b q H. apply z_div_round_some in H. apply Z.leb_le. unfold rsub. cbn [radd rneg rmul Z_ring].
+    replace (a + - (q * b)) with (a - q * b) by lia. tauto.
   - exact z_div_round_total.
-  - intros x b Hb H. apply Z.leb_le in H. nia.
+  - intros x b Hb H. apply Z.leb_le in H. rewrite <- (Z.abs_square x), <- (Z.abs_square b).
+    assert (0 < Z.abs b) by lia. pose proof (Z.abs_nonneg x). nia.
   - intros x u. unfold z_is_unit. destruct (Z.eqb_spec u 1); destruct (Z.eqb_spec (- u) 1); cbn; intros H; try discriminate; nia.
 Qed.
 
@@ -93,9 +95,11 @@ Qed.
 
 Lemma q_ring_laws eis : ring_laws (q_ring eis).
 Proof.
-  constructor; cbn; intros; rewrite ?q_mul_eq;
+  constructor; unfold q_ring; cbn [rzero rone radd rneg rmul reqb]; intros;
+    rewrite ?q_mul_eq;
     repeat match goal with z : qint |- _ => destruct z end;
-    try (unfold q_add, q_neg, q_zero, q_one, q_mul'; cbn [fst snd]; destruct eis; f_equal; ring).
+    unfold q_add, q_neg, q_zero, q_one, q_mul'; cbn [fst snd].
+  all: try (destruct eis; cbn [fst snd]; f_equal; ring).
   apply q_eqb_eq.
 Qed.
 
@@ -171,18 +175,18 @@ Proof.
     apply z_div_round_some in E1, E2. apply andb_true_iff. rewrite !Z.leb_le.
     assert (Hn : 0 <= n) by apply q_norm_nonneg.
     rewrite (Z.abs_eq n) in * by assumption.
-    split.
-    + replace (x - ((m' - n') * n - n' * 0) + (y - ((m' - n') * 0 + n' * n + n' * 0))) with (x + y - m' * n) by ring. tauto.
-    + replace (y - ((m' - n') * 0 + n' * n + n' * 0)) with (y - n' * n) by ring. tauto.
+    split; cbn [fst snd].
+    + match goal with |- 2 * Z.abs ?e <= _ => replace e with (x + y - m' * n) by ring end. tauto.
+    + match goal with |- 2 * Z.abs ?e <= _ => replace e with (y - n' * n) by ring end. tauto.
   - destruct (z_div_round x n) as [x'|] eqn:E1; [|discriminate]. cbn [obind].
     destruct (z_div_round y n) as [y'|] eqn:E2; [|discriminate]. cbn [obind].
     intros H. injection H as <- <-.
     apply z_div_round_some in E1, E2. apply andb_true_iff. rewrite !Z.leb_le.
     assert (Hn : 0 <= n) by apply q_norm_nonneg.
     rewrite (Z.abs_eq n) in * by assumption.
-    split.
-    + replace (x - (x' * n - y' * 0)) with (x - x' * n) by ring. tauto.
-    + replace (y - (x' * 0 + y' * n)) with (y - y' * n) by ring. tauto.
+    split; cbn [fst snd].
+    + match goal with |- 2 * Z.abs ?e <= _ => replace e with (x - x' * n) by ring end. tauto.
+    + match goal with |- 2 * Z.abs ?e <= _ => replace e with (y - y' * n) by ring end. tauto.
 Qed.
 
 Lemma q_div_round_total eis a b : b <> (0, 0) -> exists q, q_div_round eis a b = Some q.
